@@ -174,7 +174,7 @@ class Realizer:
         if f.flatten:
             md.append("flatten")
         if f.props is not None:
-            md.append("properties" if f.props == "" else f"properties(pattern={f.props!r})")
+            md.append("properties" if f.props == "" else ("properties(...)" if f.props_infer else f"properties(pattern={f.props!r})"))
         if f.skip == "all":
             md.append("skip")
         elif f.skip == "deser":
@@ -230,7 +230,7 @@ class Realizer:
             bases.append("Generic[" + ", ".join(o.generic_params) + "]")
         if o.kind == "dataclass":
             L.extend(decos)
-            L.append("@dataclass(frozen=True)" if o.frozen else "@dataclass")
+            L.append("@dataclass(frozen=True)" if o.frozen else ("@dataclass" if o.dc_init else "@dataclass(init=False)"))
             L.append(f"class {o.name}" + (f"({', '.join(bases)})" if bases else "") + ":")
             empty = True
             for f, e in zip(o.fields, field_exprs):
